@@ -347,9 +347,13 @@ class BusCookieAuthenticator :
 
     def _step_two(self, response):
         self._delete_cookie()
+        self.cookieId = None  # nothing left for cancel() to delete
         hash_str = None
         shash = 1
         try:
+            if isinstance(response, str):
+                response = response.encode('ascii')
+
             client_challenge, hash_str = response.split()
 
             tohash = (
